@@ -32,3 +32,4 @@ Print Assumptions ReaderEquiv.tr_ReadInt_total.
 Print Assumptions ReaderEquiv.tr_ReadString_total.
 Print Assumptions ReqIdEquiv.tr_genRequestID_equiv.
 Print Assumptions ReqIdEquiv.tr_genRequestID_loop_step.
+Print Assumptions ReaderEquiv.tr_SkipTo_equiv.
